@@ -246,6 +246,12 @@ func ruleCmpZeroOnly(c *Ctx, r *R) {
 }
 
 func ruleTreeBounds(c *Ctx, r *R) {
+	var unbindSeeks func()
+	defer func() {
+		if unbindSeeks != nil {
+			unbindSeeks()
+		}
+	}()
 	consts := []string{"boundInclude", "boundExclude", "boundUnbounded"}
 	kindVal := map[string]int64{}
 	for _, k := range consts {
@@ -275,6 +281,12 @@ func ruleTreeBounds(c *Ctx, r *R) {
 		}
 		nearP, farP := fn.Params[sp.near], fn.Params[sp.far]
 		base := "tree.btree." + sp.fn
+		// a helper that is handed the seek methods as method values (seekBound(lower, c.SeekFirstGreaterOrEqual, ...)): its
+		// func-typed parameters stand for those methods while this function is analysed
+		if unbindSeeks != nil {
+			unbindSeeks()
+		}
+		unbindSeeks = bindFuncParams(fn)
 		di := deepInstrs(fn, 3)
 		// kindsAt: which kind tests on which bound parameter hold (eq) / are excluded (neq) at this instruction?
 		type kf struct {
@@ -407,9 +419,13 @@ func ruleTreeBounds(c *Ctx, r *R) {
 			good := fname(cal) == want
 			why := "calls " + fname(cal)
 			if good && kn != "boundUnbounded" {
-				if len(call.Call.Args) != 2 {
+				wantArgs := 2
+				if _, direct := call.Call.Value.(*ssa.Function); !direct {
+					wantArgs = 1 // called through a method value: the receiver is bound
+				}
+				if len(call.Call.Args) != wantArgs {
 					good, why = false, "wrong arity"
-				} else if pv := valueProv(call.Call.Args[1], provEnv{chain: ss[0].calls}); !pv.isParamField(nearP, "key") {
+				} else if pv := valueProv(call.Call.Args[wantArgs-1], provEnv{chain: ss[0].calls}); !pv.isParamField(nearP, "key") {
 					good, why = false, "seeks to "+pv.String()+" instead of "+nearP.Name()+".key"
 				}
 			}
